@@ -186,6 +186,54 @@ func (c *aeCtx) valueDomain(v ssa.Value, depth int) *fieldDomain {
 		if x.Value != nil && x.Value.Kind() == constant.String {
 			return &fieldDomain{closed: true, allowed: []string{constant.StringVal(x.Value)}}
 		}
+	case *ssa.Extract:
+		// result k of a repo helper: the join over its returns. A return that reports failure through a
+		// constant false in a boolean result is left out when the caller branches on that result.
+		call, ok := x.Tuple.(*ssa.Call)
+		if !ok {
+			return nil
+		}
+		g := call.Call.StaticCallee()
+		if g == nil || !c.p.IsRepoFn(g) || g.Blocks == nil {
+			return nil
+		}
+		okIdx := -1
+		for i := 0; i < g.Signature.Results().Len(); i++ {
+			if isBoolType(g.Signature.Results().At(i).Type()) {
+				for _, ref := range *call.Referrers() {
+					if ex, isEx := ref.(*ssa.Extract); isEx && ex.Index == i {
+						for _, r2 := range *ex.Referrers() {
+							if _, isIf := r2.(*ssa.If); isIf {
+								okIdx = i
+							}
+						}
+					}
+				}
+			}
+		}
+		var d *fieldDomain
+		first := true
+		for _, b := range g.Blocks {
+			ret, isRet := b.Instrs[len(b.Instrs)-1].(*ssa.Return)
+			if !isRet || x.Index >= len(ret.Results) {
+				continue
+			}
+			if okIdx >= 0 {
+				if cv, isC := ret.Results[okIdx].(*ssa.Const); isC && cv.Value != nil && cv.Value.Kind() == constant.Bool && !constant.BoolVal(cv.Value) {
+					continue
+				}
+			}
+			de := c.valueDomain(ret.Results[x.Index], depth+1)
+			if de == nil {
+				return nil
+			}
+			if first {
+				d, first = de, false
+			} else {
+				d = joinDomain(d, de)
+			}
+		}
+		return d
 	case *ssa.Parameter:
 		// a parameter of a repo helper: the join over every call site (all of them must be resolved)
 		fn := x.Parent()
